@@ -1,0 +1,65 @@
+//go:build verif
+
+package cipher
+
+import "time"
+
+// Exports for the external verification harness. Add-only; compiled only with -tags verif.
+
+const (
+	VerifCacheValidInterval    = cacheValidInterval
+	VerifCacheValidMaxJitterMs = cacheValidMaxJitterMs
+)
+
+func VerifSaltFromTime(t time.Time) [][]byte { return saltFromTime(t) }
+
+func VerifCipherKeyEpoch(t time.Time) int64 { return cipherKeyEpoch(t) }
+
+// VerifCacheLookup calls getCachedCiphers and reports the entry that was returned.
+func VerifCacheLookup(password string, now time.Time) (epoch int64, create time.Time, keys [][]byte, reused bool, err error) {
+	before, _ := blockCipherCache.Load(password)
+	e, err := getCachedCiphers(password, now)
+	if err != nil {
+		return 0, time.Time{}, nil, false, err
+	}
+	if before != nil && before.(*cachedCiphers) == e {
+		reused = true
+	}
+	for _, c := range e.cipherList {
+		k := make([]byte, len(c.key))
+		copy(k, c.key[:])
+		keys = append(keys, k)
+	}
+	return e.epoch, e.createTime, keys, reused, nil
+}
+
+func VerifCacheReset() {
+	blockCipherCache.Range(func(k, _ any) bool { blockCipherCache.Delete(k); return true })
+}
+
+// VerifDecryptorTryAt exposes StatelessDecryptor.tryDecryptAt.
+func VerifDecryptorTryAt(d *StatelessDecryptor, ciphertext []byte, now time.Time) ([]byte, error) {
+	_, p, err := d.tryDecryptAt(ciphertext, nil, now)
+	return p, err
+}
+
+// VerifDecryptorEntry reports the entry held by the decryptor (epoch, create time, keys).
+func VerifDecryptorEntry(d *StatelessDecryptor) (epoch int64, create time.Time, keys [][]byte, ok bool) {
+	e := d.ciphers.Load()
+	if e == nil {
+		return 0, time.Time{}, nil, false
+	}
+	for _, c := range e.cipherList {
+		k := make([]byte, len(c.key))
+		copy(k, c.key[:])
+		keys = append(keys, k)
+	}
+	return e.epoch, e.createTime, keys, true
+}
+
+// VerifIncreaseNonce applies the implicit-nonce increment to a copy of n.
+func VerifIncreaseNonce(n []byte) []byte {
+	c := &aeadBlockCipher{enableImplicitNonce: true, implicitNonce: append([]byte(nil), n...)}
+	c.increaseNonce()
+	return c.implicitNonce
+}
